@@ -2,7 +2,7 @@
 // usage: c11_life <nthreads> <e|a> [<gatepos 0|1> <gatefile>]
 //   nthreads  helper threads alive between the two thread phases
 //   e | a     end by exit(37) | by abort() (SIGABRT)
-//   gate      with a gate file: spin (no sleeping) at gate position 0 (single thread, before the first site)
+//   gate      with a gate file (pace points before every site park the program while <gatefile>.pause exists): spin (no sleeping) at gate position 0 (single thread, before the first site)
 //             or 1 (all helper threads alive) until the file exists — this is where a debugger attaches.
 // Before every site call the program reports `site <name> <threads alive>` on stdout: the harness takes the
 // site sequence and the thread counts from a NATIVE run, never from the debugger.
@@ -34,6 +34,21 @@ fn gate(pos: &str, want: &Option<(String, String)>) {
     }
 }
 
+/// pace point: with a gate file, park here (reporting it once) while `<gatefile>.pause` exists — the harness uses
+/// this to examine a released process at a well-defined place with all threads of the phase alive
+fn pace(want: &Option<(String, String)>) {
+    if let Some((_, file)) = want {
+        let p = format!("{file}.pause");
+        if std::path::Path::new(&p).exists() {
+            println!("paused");
+            while std::path::Path::new(&p).exists() {
+                for _ in 0..20000 { std::hint::spin_loop(); }
+                std::thread::yield_now();
+            }
+        }
+    }
+}
+
 fn main() {
     let args: Vec<String> = std::env::args().collect();
     let n: usize = args.get(1).and_then(|s| s.parse().ok()).unwrap_or(0);
@@ -41,8 +56,8 @@ fn main() {
     let want = match (args.get(3), args.get(4)) { (Some(p), Some(f)) => Some((p.clone(), f.clone())), _ => None };
     let mut acc: u64 = 1;
     gate("0", &want);
-    println!("site a 1"); acc = site_a(acc);
-    println!("site c 1"); acc = site_c(acc);
+    pace(&want); println!("site a 1"); acc = site_a(acc);
+    pace(&want); println!("site c 1"); acc = site_c(acc);
     let ready = Arc::new(AtomicUsize::new(0));
     let stop = Arc::new(AtomicBool::new(false));
     let mut hs = vec![];
@@ -60,13 +75,14 @@ fn main() {
     }
     while ready.load(Ordering::SeqCst) < n { std::thread::yield_now(); }
     gate("1", &want);
-    println!("site b {}", n + 1); acc = site_b(acc);
-    println!("site a {}", n + 1); acc = site_a(acc);
-    println!("site d {}", n + 1); acc = site_d(acc);
+    pace(&want); println!("site b {}", n + 1); acc = site_b(acc);
+    pace(&want); println!("site a {}", n + 1); acc = site_a(acc);
+    pace(&want); println!("site d {}", n + 1); acc = site_d(acc);
     stop.store(true, Ordering::SeqCst);
     for h in hs { let _ = h.join(); }
-    println!("site c 1"); acc = site_c(acc);
-    println!("site b 1"); acc = site_b(acc);
+    pace(&want); println!("site c 1"); acc = site_c(acc);
+    pace(&want); println!("site b 1"); acc = site_b(acc);
+    pace(&want);
     println!("acc {acc} {}", unsafe { std::ptr::addr_of!(C11_QUIET_WORD).read()[1] });
     if abort { std::process::abort(); }
     std::process::exit(37);
